@@ -81,14 +81,16 @@ func runC05(c *fw.Case) (o fw.Outcome) {
 		amf[0] |= 0x80
 	}
 	if c.Idx%16 == 9 {
-		// inputs that READ AS TEXT in some notation (hexadecimal with a 0x prefix, decimal, a keyword, a trailing line end):
+		// inputs that READ AS TEXT in some notation (hexadecimal with a 0x prefix, decimal, a keyword, a trailing line end, a
+		// byte order mark in front of valid UTF-8, UTF-16, percent or base64 encoding, quotes, padding blanks, multi-octet characters):
 		// RAND as it is, and SQN chosen so that SQN xor AK - the first six octets of AUTN, a KDF parameter - is such text
 		if r.Intn(2) == 0 {
 			copy(rnd, pick(r, "0x"+strings.ToUpper(hexs(rbytes(r, 7))), hexs(rbytes(r, 8)), digits(r, 16), "0123456789abcde\n", "true            "))
 			opc = sec.ComputeOPc(k, op)
 		}
 		_, _, _, ak0, _ := sec.F2345(k, opc, rnd)
-		want := []byte(pick(r, "0x1A2b", "0Xffff", "0x0000", "123456", "true\n\n", "abcdef", "ABCDEF", "65535\n", "\r\n\r\n\r\n", "0b0101", "1e1000"))
+		want := []byte(pick(r, "0x1A2b", "0Xffff", "0x0000", "123456", "true\n\n", "abcdef", "ABCDEF", "65535\n", "\r\n\r\n\r\n", "0b0101", "1e1000",
+			"\xef\xbb\xbf123", "\xef\xbb\xbf\x00\xc3\xa9", "\xfe\xff\x001\x002", "\xff\xfe1\x002\x00", "%41%42", "\"abcd\"", " 1234 ", "QUJD\n\n", "a\x00\x00\x00\x00\x00", "\xc3\xa9\xc3\xa9\xc3\xa9", "\xe2\x82\xac\xe2\x82\xac"))
 		for i := range sqn {
 			sqn[i] = want[i] ^ ak0[i]
 		}
